@@ -21,11 +21,12 @@ def s_case(draw, force_huge=False):
     big = draw(st.integers(0, 9)) == 0
     huge = force_huge or draw(st.integers(1, 2 ** 30)) % (60 if os.environ.get("VF_TIER") == "thorough" else 500) == 7
     n = draw(st.sampled_from([131072, 100003, 2 ** 17 + 1, 2 ** 18 + 1, 300000, 2 ** 19 + 7])) if huge else \
-        draw(st.sampled_from([2048, 4096, 4095, 2047, 8191])) if big else draw(st.one_of(st.sampled_from(LENGTHS), st.integers(1, 300)))
+        draw(st.sampled_from([2048, 4096, 4095, 2047, 8191, 16384, 32768, 20011])) if big else draw(st.one_of(st.sampled_from(LENGTHS), st.integers(1, 300)))
     x = draw(s_signal(n=n, fams=["gauss", "unif", "smallint", "spike", "const", "lead0", "alt", "periodic", "sorted", "sym"]))
     # units: amplitudes over 18 decades; "weakq": an O(1) real waveform with a quadrature component of 1e-12..1e-6
     x["scale"] = draw(st.sampled_from([1.0, 1.0, 1e-3, 1e-9, 1e-12, 1e6]))
     x["weakq"] = draw(st.sampled_from([0.0, 0.0, 1e-12, 1e-9, 1e-7]))
+    x["nscale"] = draw(st.sampled_from([1.0, 1.0, 1.0, 1e-7, 1e-10, 1e8]))       # the noise component on its own scale (each component is transformed for itself)
     return {"x": x, "gv": draw(s_gv(noncommensurate=True)), "gv2": draw(s_gv(noncommensurate=True)), "shift": draw(st.booleans()), "dom": draw(st.sampled_from(["w", "f", "t"]))}
 
 
@@ -45,13 +46,15 @@ def e_case(c):
     sps, R, fs = apply_gv(c["gv"], c["x"]["sig"]["n"])
     x, m = build(c["x"])
     sc, wq = c["x"].get("scale", 1.0), c["x"].get("weakq", 0.0)
-    if sc != 1.0 or wq:
+    nsc = c["x"].get("nscale", 1.0) if m.n is not None and m.n.dtype.kind != "i" else 1.0
+    if sc != 1.0 or wq or nsc != 1.0:
         rs_ = np.random.RandomState(c["x"]["sig"]["seed"])
         s_ = m.s * sc if m.s.dtype.kind != "i" or sc >= 1 else m.s.astype(float) * sc
         if wq:
             s_ = s_.real.astype(float) + 1j * wq * abs(sc) * rs_.standard_normal(m.s.shape)
         n_ = None if m.n is None else ((m.n * sc if m.n.dtype.kind != "i" or sc >= 1 else m.n.astype(float) * sc) * (1e-3 if wq else 1.0))
         if n_ is not None:
+            n_ = n_ * nsc
             rt = np.result_type(s_, n_)
             s_, n_ = s_.astype(rt), n_.astype(rt)
         from ..sigs import CLS, Model
